@@ -236,7 +236,14 @@ func runC04(c *Ctx) {
 				}
 				return false, false
 			},
-			Inline: func(fr *Frame, call ssa.CallInstruction, callee *ssa.Function) bool { return false },
+			// a constructor of the match client (newMatchClient(&c)) is entered: the queue it is given is what counts
+			Inline: func(fr *Frame, call ssa.CallInstruction, callee *ssa.Function) bool {
+				if pkgPathOf(callee) != pkgPathOf(subscribe) || callee.Parent() != nil || isExportedFn(callee) || len(callee.Blocks) == 0 {
+					return false
+				}
+				rs := callee.Signature.Results()
+				return rs.Len() == 1 && isNamed(deref(rs.At(0).Type()), "subscribe", "matchClient")
+			},
 			Watch: func(ev *Ev) bool {
 				return isReg(ev) || isWalkGo(ev) || isSenderGo(ev) || isQueueInsert(ev) || ev.Deferred || strings.HasPrefix(ev.Label, "recv:") ||
 					strings.HasPrefix(ev.Label, "store:subscribe.") || ev.Label == "call:coalesce.NewQueue" || strings.HasPrefix(ev.Label, "go:")
